@@ -68,7 +68,13 @@ const resolveImportNoCache = (file_name: string, mod: string): string | undefine
   return resolved.resolvedModule?.resolvedFileName;
 };
 
-const resolvedCache: Record<string, Record<string, string | undefined>> = {};
+// Answers are only good for the build that asked for them: between two builds of a watch
+// session files appear, disappear and start to shadow each other, and the compiler asks again
+// before every build precisely to notice that.
+let resolvedCache: Record<string, Record<string, string | undefined>> = {};
+const forgetResolutions = () => {
+  resolvedCache = {};
+};
 
 const resolveImport = (file_name: string, mod: string): string | undefined => {
   const cached = resolvedCache?.[file_name]?.[mod];
@@ -204,6 +210,7 @@ export class Bundler {
   }
 
   public bundle_v2(parser_entrypoint: string | undefined, settings: BeffUserSettings): string | undefined {
+    forgetResolutions();
     return wasm.bundle_to_string_v2(parser_entrypoint ?? "", JSON.stringify(serializeSettings(settings)));
   }
 
@@ -211,12 +218,14 @@ export class Bundler {
     parser_entrypoint: string | undefined,
     settings: BeffUserSettings,
   ): WasmDiagnostic | null {
+    forgetResolutions();
     return JSON.parse(
       wasm.bundle_to_diagnostics(parser_entrypoint ?? "", JSON.stringify(serializeSettings(settings))),
     );
   }
 
   public updateFileContent(file_name: string, content: string) {
+    forgetResolutions();
     return wasm.update_file_content(file_name, content);
   }
 }
